@@ -104,13 +104,15 @@ def enum_dim(dim):
 def items_dim(dim, derived=True):
     els = []
     for p in range(1, dim["n"] + 1):
-        value = {"derived": False, "id": _item_subvar_id(dim, p),
+        # base_derived: the sub-variables of a derived array are themselves flagged derived
+        value = {"derived": bool(dim.get("base_derived")), "id": _item_subvar_id(dim, p),
                  "references": {"alias": _item_alias(dim, p), "name": _item_name(dim, p),
                                 "description": None}}
         dv = {int(k): v for k, v in (dim.get("derived") or {}).items()}.get(p)
         if dv:
             value["derived"] = True
-            value["id"] = _item_name(dim, p)
+            # the server puts the insertion's name where a sub-variable id would be
+            value["id"] = _item_subvar_id(dim, p) if dim.get("svids") else _item_name(dim, p)
             at = dv.get("at", "none")
             if at in ("top", "bottom"):
                 value["references"]["anchor"] = at
